@@ -17,6 +17,10 @@
        varPop / stddevPop (x)      oracles over the list of values
        toFloat64(x)                the number x as a float (exact rational here)
        length(x)                   bytes of a string
+       lengthUTF8(x)               code points of a string: the bytes that are no UTF-8 continuation byte (10xxxxxx); on
+                                   well-formed UTF-8 (RFC 3629) that is the number of encoded characters (the
+                                   documentation leaves ill-formed input undefined; ClickHouse's countCodePoints
+                                   counts exactly these bytes)
        cityHash64(m)               oracle over a Map value
    * `a / <decimal literal>` and `intDiv(a, n) * m` (intDiv truncates toward zero),
    * toFloat64OrZero(x): the oracle `to_float` of a string,
@@ -114,6 +118,14 @@ Definition qmax_q (l : list Q) : option Q :=
 Definition qcount {A} (l : list A) : Q := inject_Z (Z.of_nat (List.length l)).
 Definition vnum (q : Q) : value := VNum (Qred q).
 
+(* lengthUTF8: every byte outside 0x80..0xBF starts a code point *)
+Definition is_utf8_cont (c : ascii) : bool := let n := nat_of_ascii c in Nat.leb 128 n && Nat.ltb n 192.
+Fixpoint utf8_points (s : string) : nat :=
+  match s with
+  | EmptyString => O
+  | String c r => if is_utf8_cont c then utf8_points r else S (utf8_points r)
+  end.
+
 Section AGG.
   Variable re_match : string -> string -> bool.
   Variable parse_float : string -> option Q.
@@ -149,6 +161,7 @@ Section AGG.
         if String.eqb f "any" then (if agg then match g with r :: _ => ev_tx false a [r] | [] => None end else None)
         else if String.eqb f "toFloat64" then match ev_tx agg a g with Some v => option_map vnum (num_of v) | None => None end
         else if String.eqb f "length" then match ev_tx agg a g with Some (VStr s) => Some (VInt (Z.of_nat (String.length s))) | _ => None end
+        else if String.eqb f "lengthUTF8" then match ev_tx agg a g with Some (VStr s) => Some (VInt (Z.of_nat (utf8_points s))) | _ => None end
         else if String.eqb f "cityHash64" then match ev_tx agg a g with Some (VMap m) => Some (VInt (hash_map m)) | _ => None end
         else if negb agg then None else
           match map_opt (fun r => match ev_tx false a [r] with Some v => num_of v | None => None end) g with
